@@ -216,11 +216,37 @@ def groups_of(lines):
     return gs
 
 
+def canon_events(lines):
+    """Canonicalisation applied to both streams before they are compared:
+    consecutive successful `write`s by one thread to one file are merged into
+    one (so a `write_all` loop, a short write or a vectored write look alike;
+    contents are compared through the `dir` hashes)."""
+    out = []
+    for l in lines:
+        t = l.split()
+        if len(t) == 7 and t[0] == "ev" and t[1] == "write" and t[6] == "ok":
+            if out and out[-1][0] == "W" and out[-1][1] == (t[2], t[3]):
+                out[-1][2] += int(t[4])
+                continue
+            out.append(["W", (t[2], t[3]), int(t[4])])
+        else:
+            out.append(["L", l])
+    res = []
+    for x in out:
+        if x[0] == "W":
+            res.append(f"ev write {x[1][0]} {x[1][1]} {x[2]} ok")
+        else:
+            res.append(x[1])
+    return res
+
+
 def first_diff(impl_lines, model_lines, project):
     """Compare the two streams under a projection `project(line) -> str|None`
     (None = channel not in the footprint). Returns None or a description."""
-    a = [p for p in (project(l) for l in impl_lines if not l.startswith(("=", "#"))) if p is not None]
-    b = [p for p in (project(l) for l in model_lines if not l.startswith(("=", "#"))) if p is not None]
+    a = [p for p in (project(l) for l in canon_events([x for x in impl_lines if not x.startswith(("=", "#"))]))
+         if p is not None]
+    b = [p for p in (project(l) for l in canon_events([x for x in model_lines if not x.startswith(("=", "#"))]))
+         if p is not None]
     for i in range(max(len(a), len(b))):
         x = a[i] if i < len(a) else "<missing>"
         y = b[i] if i < len(b) else "<missing>"
